@@ -68,6 +68,11 @@ pub struct HistHolderScn {
     /// from a damaged SD-JWT — if one can be built at all — must behave like a fresh one, too
     #[serde(default)]
     pub source_faults: Vec<Fault>,
+    /// thread history: the thread that builds and uses the long-lived holder has loaded the
+    /// SD-JWT as issued into another holder before, and is not replaced between calls; the fresh
+    /// instances it is compared with live on fresh threads
+    #[serde(default)]
+    pub same_thread: bool,
 }
 
 fn failing_issue_call(rng: &mut Rng, now: i64) -> IssueCall {
@@ -220,9 +225,12 @@ pub fn gen_c11(rng: &mut Rng, tier: Tier) -> Result<Value, serde_json::Error> {
             }
             calls.push(call);
         }
-        let source_faults = if rng.chance(1, 5) {
+        let same_thread = rng.chance(1, 3);
+        let source_faults = if rng.chance(1, 5) || (same_thread && rng.bool()) {
             let at_end = 1000; // taken modulo the list length + 1: positions behind the first
-            vec![match rng.usize(6) {
+            vec![match rng.usize(9) {
+                6 | 7 => Fault::DropDisclosure(rng.usize(8)),
+                8 => Fault::KeepMask(rng.next_u64() | 1),
                 0 => Fault::DupDisclosure { i: rng.usize(8), at: at_end - rng.usize(3) },
                 1 => Fault::GarbageDisclosure { text: rng.pick(&["", "e30", "W10", "!!!", "bm90LWpzb24"]).to_string(), at: at_end - rng.usize(3) },
                 2 => Fault::Reserialize { i: 1 + rng.usize(8), mode: rng.pick(&[Reser::TrailingData(0), Reser::Padding, Reser::ChangeSalt, Reser::Whitespace]).clone() },
@@ -233,7 +241,7 @@ pub fn gen_c11(rng: &mut Rng, tier: Tier) -> Result<Value, serde_json::Error> {
         } else {
             Vec::new()
         };
-        serde_json::to_value(HistHolderScn { kind: "hist_holder".into(), check: "C11".into(), entropy_seed: rng.next_u64(), clock_base: now, key, alg, cred, calls, source_faults })
+        serde_json::to_value(HistHolderScn { kind: "hist_holder".into(), check: "C11".into(), entropy_seed: rng.next_u64(), clock_base: now, key, alg, cred, calls, source_faults, same_thread })
     }
 }
 
@@ -435,6 +443,7 @@ fn exec_holder(scn: &HistHolderScn) -> RunReport {
         cx.rep.count("creds_not_issued");
         return finish(cx, w, t0);
     };
+    let issued_as_is = sdjwt.clone();
     let sdjwt = if scn.source_faults.is_empty() {
         sdjwt
     } else {
@@ -449,6 +458,11 @@ fn exec_holder(scn: &HistHolderScn) -> RunReport {
             None => return finish(cx, w, t0),
         }
     };
+    if scn.same_thread {
+        // this thread has seen the SD-JWT as issued before
+        let _ = w.holder_new(node, &issued_as_is, c.fmt);
+        cx.rep.count("fault.thread_loaded_the_issued_sd_jwt_before");
+    }
     let reused = match w.holder_new(node, &sdjwt, c.fmt) {
         Out::Ok(h) => h,
         _ => {
@@ -462,14 +476,22 @@ fn exec_holder(scn: &HistHolderScn) -> RunReport {
     let hist_hash = hash_str(&serde_json::to_string(&scn.calls).unwrap_or_default()) ^ hash_str(&c.claims.to_string());
     let mut earlier_kb: Vec<String> = Vec::new();
     for (k, call) in scn.calls.iter().enumerate() {
-        w.rt.restart_node(node);
+        if !scn.same_thread {
+            w.rt.restart_node(node);
+        }
         let s = seams::entropy_state();
         let out_reused = w.present_raw(node, &reused, &call.selection, call.nonce.clone(), call.aud.clone(), call.key.clone(), call.alg.clone());
         let after = seams::entropy_state();
-        w.rt.restart_node(node);
+        let fresh_node = if scn.same_thread {
+            w.rt.restart_node(n_i);
+            n_i
+        } else {
+            w.rt.restart_node(node);
+            node
+        };
         seams::set_entropy_state(s);
-        let out_fresh = match w.holder_new(node, &sdjwt, c.fmt) {
-            Out::Ok(h) => w.present_raw(node, &h, &call.selection, call.nonce.clone(), call.aud.clone(), call.key.clone(), call.alg.clone()),
+        let out_fresh = match w.holder_new(fresh_node, &sdjwt, c.fmt) {
+            Out::Ok(h) => w.present_raw(fresh_node, &h, &call.selection, call.nonce.clone(), call.aud.clone(), call.key.clone(), call.alg.clone()),
             Out::Err { variant, msg } => Out::Err { variant, msg },
             Out::Panic(p) => Out::Panic(p),
         };
@@ -612,6 +634,13 @@ pub struct RelayScn {
     /// stage (nonce and aud but no key), for the previous (wider) selection
     #[serde(default)]
     pub rejected_first: Vec<bool>,
+    /// the credential comes from an issuer that does not sort its `_sd` lists: the issued payload
+    /// is re-signed by the same key with every `_sd` list of the payload permuted (seed)
+    #[serde(default)]
+    pub unsorted_sd: Option<u64>,
+    /// the relay's thread has loaded the SD-JWT as issued before (a wallet that also holds it)
+    #[serde(default)]
+    pub relay_saw_original: bool,
 }
 
 pub fn gen_c15(rng: &mut Rng, _tier: Tier) -> Result<Value, serde_json::Error> {
@@ -620,6 +649,18 @@ pub fn gen_c15(rng: &mut Rng, _tier: Tier) -> Result<Value, serde_json::Error> {
     let alg = Some(keys::alg_of(&key).to_string());
     let cfg = GenCfg { hazard_pm: 0, ..GenCfg::draw(rng) };
     let mut claims = gen::gen_claims(rng, &cfg, "https://issuer-a.example", now);
+    // sometimes a deeply nested claim (an organisational path, a nested address book)
+    let deep = rng.chance(1, 15);
+    if deep {
+        let depth = *rng.pick(&[12usize, 20, 33, 40, 70]);
+        let mut v = json!({"leaf": "x"});
+        for i in (0..depth).rev() {
+            v = json!({ format!("l{}", i): v, "n": i });
+        }
+        if let Some(o) = claims.as_object_mut() {
+            o.insert("tree".into(), v);
+        }
+    }
     // sometimes a long list (a transcript, a list of memberships): positions beyond any
     // machine-word bitmap or small table
     let long_list = rng.chance(1, 12);
@@ -630,7 +671,7 @@ pub fn gen_c15(rng: &mut Rng, _tier: Tier) -> Result<Value, serde_json::Error> {
         }
     }
     let strat = match rng.usize(4) {
-        _ if long_list => Strat::All,
+        _ if long_list || deep => Strat::All,
         0 => gen::gen_strategy(rng, &claims),
         1 => Strat::Top,
         _ => Strat::All,
@@ -665,7 +706,7 @@ pub fn gen_c15(rng: &mut Rng, _tier: Tier) -> Result<Value, serde_json::Error> {
     let other_traffic: Vec<bool> = selections.iter().map(|_| rng.chance(1, 3)).collect();
     let repeat_earlier: Vec<Option<usize>> = (0..selections.len()).map(|j| if j >= 1 && rng.chance(1, 2) { Some(rng.usize(j)) } else { None }).collect();
     let rejected_first: Vec<bool> = selections.iter().map(|_| rng.chance(1, 4)).collect();
-    serde_json::to_value(RelayScn { kind: "relay".into(), check: "C15".into(), entropy_seed: rng.next_u64(), clock_base: now, key, alg, cred, selections, fmts, warmups, other_traffic, repeat_earlier, rejected_first })
+    serde_json::to_value(RelayScn { kind: "relay".into(), check: "C15".into(), entropy_seed: rng.next_u64(), clock_base: now, key, alg, cred, selections, fmts, warmups, other_traffic, repeat_earlier, rejected_first, unsorted_sd: if rng.chance(1, 5) { Some(rng.next_u64()) } else { None }, relay_saw_original: rng.chance(1, 4) })
 }
 
 pub fn execute_c15(scn_v: &Value) -> RunReport {
@@ -690,6 +731,20 @@ pub fn execute_c15(scn_v: &Value) -> RunReport {
         cx.rep.count("creds_not_issued");
         return finish(cx, w, t0);
     };
+    let sdjwt = match scn.unsorted_sd {
+        Some(seed) => match w.resign_with_permuted_sd(&sdjwt, c.fmt, &scn.key, scn.alg.as_deref().unwrap_or(keys::alg_of(&scn.key)), seed) {
+            Some(s) => {
+                cx.rep.count("fault.issuer_does_not_sort_sd_lists");
+                s
+            }
+            None => sdjwt,
+        },
+        None => sdjwt,
+    };
+    if scn.relay_saw_original {
+        let _ = w.holder_new(n_hr, &sdjwt, c.fmt);
+        cx.rep.count("fault.thread_loaded_the_issued_sd_jwt_before");
+    }
     let Some(orig) = Message::parse(&sdjwt, c.fmt) else { return finish(cx, w, t0) };
     let hist_hash = hash_str(&serde_json::to_string(&scn.selections).unwrap_or_default()) ^ hash_str(&c.claims.to_string());
     // relay chain
